@@ -11,6 +11,8 @@
 #include "IO/ProgramOptions.hpp"
 
 #include <array>
+#include <iomanip>
+#include <limits>
 #include <utility>
 
 vfps::ProgramOptions::ProgramOptions() :
@@ -434,19 +436,33 @@ void vfps::ProgramOptions::save(std::string fname)
         ){
             continue;
         } else
-        if (it->first == "alpha0" && std::fpclassify(f_s) == FP_ZERO) {
+        if (it->first == "alpha0" && std::fpclassify(f_s) != FP_ZERO) {
             ofs << "alpha0=0" << std::endl;
             continue;
         } else
         if (!it->second.value().empty()) {
             if (it->second.value().type() == typeid(float)) {
+                // enough digits to get the identical value when read back
                 ofs << it->first << '='
+                    << std::setprecision(
+                           std::numeric_limits<float>::max_digits10)
                     << _vm[it->first].as<float>()
                     << std::endl;
             } else if (it->second.value().type() == typeid(double)) {
                 ofs << it->first << '='
+                    << std::setprecision(
+                           std::numeric_limits<double>::max_digits10)
                     << _vm[it->first].as<double>()
                     << std::endl;
+            } else if (it->second.value().type()
+                       == typeid(std::vector<integral_t>)) {
+                // multitoken option: one line per value
+                for (auto v : _vm[it->first].as<std::vector<integral_t>>()) {
+                    ofs << it->first << '='
+                        << std::setprecision(
+                               std::numeric_limits<integral_t>::max_digits10)
+                        << v << std::endl;
+                }
             } else if (it->second.value().type() == typeid(int32_t)) {
                 ofs << it->first << '='
                     << _vm[it->first].as<int32_t>()
